@@ -3,6 +3,7 @@ import TucanProofs.Examples
 import TucanProofs.Lemmas.Files
 import TucanProofs.Lemmas.FilesIdx
 import TucanProofs.Lemmas.MoreExamples
+import TucanProofs.Lemmas.MixedEol
 /-!
 # C06 — TUCAN depends only on elements, isotopes, radicals and connectivity
 
@@ -90,6 +91,24 @@ theorem C06_line_endings (eol : Str) (he : IsEol eol) (lines : List Str) (hnb : 
     splitLines (fileText eol lines) = lines ∧
     ((∀ l, lines.getLast? = some l → l ≠ []) → splitLines (fileTextNoTrail eol lines) = lines) :=
   ⟨splitLines_fileText eol he lines hnb, fun h => splitLines_fileTextNoTrail eol he lines hnb h⟩
+
+/-- **… also when the terminators are mixed within one file**: each line may end in its own `\n`, `\r\n` or
+`\r`, the last one in none (`MixedOk`); the text splits into the same lines, hence the reader returns on it exactly
+what it returns on the same lines written with `\n` throughout — every file-level theorem carries over.  The one
+interaction: a line ended by `\r` directly followed by an empty line ended by `\n` spells `\r\n`, one terminator;
+such a pair is excluded (`NoCrLfMerge`), and it has to be: Python reads `"a\r\n"` as the single line `a`. -/
+theorem C06_mixed_line_endings (ls : List (Str × Str)) (hnb : ∀ p ∈ ls, WR.NoBreak p.1)
+    (hok : MixedOk ls) (hm : NoCrLfMerge ls) :
+    splitLines (fileTextMixed ls) = ls.map (·.1) ∧
+    graphFromMolfileText (fileTextMixed ls) = graphFromMolfileText (fileText ['\n'] (ls.map (·.1))) :=
+  ⟨splitLines_fileTextMixed ls hnb hok hm, graphFromMolfileText_mixed ls hnb hok hm⟩
+
+/-- non-vacuity: `a\r\nb\rc\n\nd` — four terminators of three kinds, an empty line, no terminator at the end -/
+example :
+    MixedOk [(['a'], ['\r', '\n']), (['b'], ['\r']), (['c'], ['\n']), ([], ['\n']), (['d'], [])] ∧
+    NoCrLfMerge [(['a'], ['\r', '\n']), (['b'], ['\r']), (['c'], ['\n']), ([], ['\n']), (['d'], [])] ∧
+    splitLines (fileTextMixed [(['a'], ['\r', '\n']), (['b'], ['\r']), (['c'], ['\n']), ([], ['\n']), (['d'], [])])
+      = [['a'], ['b'], ['c'], [], ['d']] := mixed_example
 
 example : exGraph.WF ∧ exGraph.Simple := ⟨exGraph_wf, exGraph_simple⟩
 
